@@ -39,6 +39,13 @@ func ptList(ps []s2.Point) string {
 func bits(p s2.Point) []string {
 	return []string{fmt.Sprintf("%x", math.Float64bits(p.X)), fmt.Sprintf("%x", math.Float64bits(p.Y)), fmt.Sprintf("%x", math.Float64bits(p.Z))}
 }
+// JSON cannot carry NaN/Inf
+func jf(x float64) interface{} {
+	if math.IsNaN(x) || math.IsInf(x, 0) {
+		return fmt.Sprint(x)
+	}
+	return x
+}
 func rep(kv ...interface{}) map[string]interface{} {
 	m := map[string]interface{}{}
 	for i := 0; i+1 < len(kv); i += 2 {
@@ -47,6 +54,8 @@ func rep(kv ...interface{}) map[string]interface{} {
 			m[kv[i].(string)] = map[string]interface{}{"xyz": []float64{v.X, v.Y, v.Z}, "bits": bits(v)}
 		case *big.Float:
 			m[kv[i].(string)] = v.Text('g', 30)
+		case float64:
+			m[kv[i].(string)] = jf(v)
 		default:
 			m[kv[i].(string)] = v
 		}
@@ -236,6 +245,9 @@ var regression = []triple{
 var extra = map[string]float64{}
 
 func track(name string, v float64) {
+	if math.IsNaN(v) || v > 1e300 {
+		v = 1e300
+	}
 	if v > extra[name] {
 		extra[name] = v
 	}
@@ -295,7 +307,7 @@ func checkTriple(c *vkit.Collector, rng *vkit.Rng, t triple, withT bool) {
 	di, oki := s2.VerifC17InteriorDist(x, a, b, inf, true)
 	g := float64(d)
 	c.Eval("tri "+key, a != b)
-	c.Sample(map[string]interface{}{"class": t.class, "x": []float64{x.X, x.Y, x.Z}, "a": []float64{a.X, a.Y, a.Z}, "b": []float64{b.X, b.Y, b.Z}, "dist2": g, "interior": oki})
+	c.Sample(map[string]interface{}{"class": t.class, "x": []float64{x.X, x.Y, x.Z}, "a": []float64{a.X, a.Y, a.Z}, "b": []float64{b.X, b.Y, b.Z}, "dist2": jf(g), "interior": oki})
 	if oki {
 		c.Class("branch:interior")
 	} else {
@@ -719,6 +731,17 @@ var regressionPolylines = []s2.Polyline{{
 	pb(0xbfe5ebdb28ea82ef, 0x3fd740dd892a15f7, 0x3fe434b22b6ac27c),
 	pb(0xbfe5ec05c0dd1371, 0x3fd7400bdaecaee8, 0x3fe434c048079b92)}}
 
+// try runs f and reports whether the code under test panicked
+func try(f func()) (msg string) {
+	defer func() {
+		if r := recover(); r != nil {
+			msg = fmt.Sprint(r)
+		}
+	}()
+	f()
+	return ""
+}
+
 func runPolylines(c *vkit.Collector, rng *vkit.Rng, budget int) {
 	sizes := []int{1, 2, 2, 3, 3, 4, 5, 8, 13, 30, 200}
 	for k := 0; k < 26*budget; k++ {
@@ -773,7 +796,13 @@ func runPolylines(c *vkit.Collector, rng *vkit.Rng, budget int) {
 			nfr = 6
 		}
 		for _, f := range fr[:nfr] {
-			q, next := pl.Interpolate(f)
+			var q s2.Point
+			var next int
+			var u float64
+			if m := try(func() { q, next = pl.Interpolate(f); u = pl.Uninterpolate(q, next) }); m != "" {
+				c.Violate("Polyline.panic", "Interpolate/Uninterpolate panicked on a non-empty polyline: "+m, rep("polyline_bits", plBits(pl), "fraction", f))
+				continue
+			}
 			c.Eval(fmt.Sprintf("%s f=%v", key, f), n > 1)
 			c.Check(fmt.Sprintf("Polyline.Interpolate %s f=%v", key, f), vkit.App("pair_beq s2_Point_eqbits Z.eqb", vkit.App("m_Polyline_Interpolate", PL, vkit.F(f)), vkit.Pair(pt(q), vkit.Z(int64(next)))))
 			R := rep("polyline_bits", plBits(pl), "fraction", f, "point", q, "next", next)
@@ -793,7 +822,6 @@ func runPolylines(c *vkit.Collector, rng *vkit.Rng, budget int) {
 					c.Violate("Polyline.Interpolate.ends", "fraction >= 1 does not return the last vertex", R)
 				}
 			}
-			u := pl.Uninterpolate(q, next)
 			c.Check(fmt.Sprintf("Polyline.Uninterpolate %s f=%v", key, f), fEq(vkit.App("m_Polyline_Uninterpolate", PL, pt(q), vkit.Z(int64(next))), u))
 			if !(u >= 0 && u <= 1) {
 				c.Violate("Polyline.Uninterpolate.range", fmt.Sprintf("Uninterpolate = %v outside [0,1]", u), R)
@@ -840,7 +868,12 @@ func runPolylines(c *vkit.Collector, rng *vkit.Rng, budget int) {
 			default:
 				x = randPoint(rng)
 			}
-			q, next := pl.Project(x)
+			var q s2.Point
+			var next int
+			if m := try(func() { q, next = pl.Project(x) }); m != "" {
+				c.Violate("Polyline.panic", "Project panicked on a non-empty polyline: "+m, rep("polyline_bits", plBits(pl), "x", x))
+				continue
+			}
 			c.Evals++
 			c.Check(fmt.Sprintf("Polyline.Project %s #%d", key, j), vkit.App("pair_beq s2_Point_eqbits Z.eqb", vkit.App("m_Polyline_Project", PL, pt(x)), vkit.Pair(pt(q), vkit.Z(int64(next)))))
 			R := rep("polyline_bits", plBits(pl), "x", x, "point", q, "next", next)
